@@ -33,9 +33,39 @@ type hllRedis struct{ h *gostatix.HyperLogLogRedis }
 
 func (x hllRedis) Update(d []byte) error            { return x.h.Update(d) }
 func (x hllRedis) Count(c, r bool) (uint64, error)  { return x.h.Count(c, r) }
-func (x hllRedis) Merge(o hllHandle) error          { return x.h.Merge(o.(hllRedis).h) }
-func (x hllRedis) Equals(o hllHandle) (bool, error) { return x.h.Equals(o.(hllRedis).h) }
+func (x hllRedis) Merge(o hllHandle) error          { return x.h.Merge(hllUnder(o)) }
+func (x hllRedis) Equals(o hllHandle) (bool, error) { return x.h.Equals(hllUnder(o)) }
 func (x hllRedis) Export() ([]byte, error)          { return x.h.Export() }
+
+// hllMulti: operations of a Redis sketch go through the creating handle or re-attached ones
+type hllMulti struct {
+	hs     []hllRedis
+	frozen bool
+}
+
+func (m *hllMulti) pick() hllRedis {
+	if !m.frozen && len(m.hs) < 3 && multiRng.Intn(6) == 0 {
+		if h, err := gostatix.NewHyperLogLogRedisFromKey(m.hs[0].h.MetadataKey()); err == nil && h != nil {
+			m.hs = append(m.hs, hllRedis{h})
+		}
+	}
+	return m.hs[multiRng.Intn(len(m.hs))]
+}
+func (m *hllMulti) Update(d []byte) error            { return m.pick().Update(d) }
+func (m *hllMulti) Count(c, r bool) (uint64, error)  { return m.pick().Count(c, r) }
+func (m *hllMulti) Merge(o hllHandle) error          { return m.pick().h.Merge(hllUnder(o)) }
+func (m *hllMulti) Equals(o hllHandle) (bool, error) { return m.pick().h.Equals(hllUnder(o)) }
+func (m *hllMulti) Export() ([]byte, error)          { return m.hs[0].Export() }
+
+func hllUnder(o hllHandle) *gostatix.HyperLogLogRedis {
+	switch x := o.(type) {
+	case hllRedis:
+		return x.h
+	case *hllMulti:
+		return x.pick().h
+	}
+	return nil
+}
 
 func newHLL(m uint64, redis bool) (hllHandle, error) {
 	if redis {
@@ -43,7 +73,7 @@ func newHLL(m uint64, redis bool) (hllHandle, error) {
 		if err != nil {
 			return nil, err
 		}
-		return hllRedis{h}, nil
+		return &hllMulti{hs: []hllRedis{{h}}}, nil
 	}
 	h, err := gostatix.NewHyperLogLog(m)
 	if err != nil {
@@ -345,7 +375,7 @@ func hllMismatch(c *Ctx) {
 
 func suiteHLLAcc(c *Ctx) {
 	c.rep.Rule = "case = (m, n, backend): n distinct random elements into a sketch of m registers, estimate compared with n (tolerance 3*1.04/sqrt(m)); every update and count is also replayed through the model; non-trivial = n >= m/2"
-	ms := []uint64{4, 16, 64, 128, 1024, 4096}
+	ms := []uint64{4, 16, 64, 128, 1024, 2048, 4096, 8192}
 	if c.thorough() {
 		ms = []uint64{2, 4, 8, 16, 32, 64, 128, 256, 512, 1024, 2048, 4096}
 	}
@@ -357,6 +387,9 @@ func suiteHLLAcc(c *Ctx) {
 			}
 			if redis && m > 1024 {
 				ns = []uint64{0, m}
+			}
+			if redis && m > 4096 {
+				continue // finding D26 territory (unpack limit); in-memory only
 			}
 			for _, n := range ns {
 				hllAccCase(c, m, n, redis)
@@ -475,6 +508,12 @@ func hllCraftedMerge(c *Ctx, m uint64, redis bool, cfg string) {
 			ierr = x.h.Import(doc)
 		case hllRedis:
 			ierr = x.h.Import(doc, true)
+		case *hllMulti:
+			// Import moves the handle to new keys without rewriting the metadata hash (D25, see
+			// DESIGN.md): only the importing handle is used from here on
+			x.hs = x.hs[:1]
+			x.frozen = true
+			ierr = x.hs[0].h.Import(doc, true)
 		}
 		if ierr != nil {
 			return nil, nil, false
